@@ -185,6 +185,17 @@ pub fn gen_c01(tier: &str, r: u64, ex: u64, rng: &mut Rng) -> Value {
         set_flav(&mut s, flav(rng));
         steps.push(s);
     }
+    // a key attached to the (possibly damaged) content by a raw index record that carries no size
+    if rng.chance(1, 6) {
+        let mut ii = json!({"k":"api","op":"index_insert","key":keys.len() - 1,"opts":{"sri":c0.clone()}});
+        set_flav(&mut ii, flav(rng));
+        steps.push(ii);
+        let f = flav(rng);
+        for mut rd in [json!({"k":"api","op":"read","key":keys.len() - 1}), json!({"k":"api","op":"reader","key":keys.len() - 1,"bufs":[4096]}), json!({"k":"api","op":"copy","key":keys.len() - 1,"to":"$O/attached"})] {
+            set_flav(&mut rd, f);
+            steps.push(rd);
+        }
+    }
     // siblings untouched by the damage read back exactly (strict)
     if nv > 2 {
         let mut s = json!({"k":"api","op":"read","key":2});
@@ -518,6 +529,20 @@ pub fn gen_c08(rng: &mut Rng) -> Value {
         }
         if rng.chance(1, 3) {
             o["meta"] = json!({"attempt": true});
+        }
+        if rng.chance(1, 6) {
+            // the options were first set to something else (for the ones that are set at all: the last call counts)
+            let mut first = json!({});
+            if o.get("size").is_some() {
+                first["size"] = json!(len + 7);
+            }
+            if o.get("sri").is_some() {
+                first["sri"] = json!({"val":1,"algo":"sha256"});
+            }
+            if o.get("meta").is_some() {
+                first["meta"] = json!("first");
+            }
+            o["first"] = first;
         }
         let mut st = json!({"k":"api","op":"write","entry":"opts","val":0,"opts":o});
         if rng.chance(3, 4) {
